@@ -82,7 +82,8 @@ def record_specs(draw, min_n=2, max_n=3000, small_max=48, kinds=None, amp_lo=-6,
     if allow_int and draw(st.integers(0, 3)) == 0:
         # container / memory-layout variants of the same record: integer dtype, python list, non-contiguous view,
         # negative-stride view, read-only array (the last three hold exactly the float64 values)
-        spec["as"] = draw(st.sampled_from(["int", "list", "int", "list", "view", "negstride", "readonly"]))
+        choices = ["int", "list", "int", "list", "view", "negstride", "readonly"] if allow_int is True else list(allow_int)
+        spec["as"] = draw(st.sampled_from(choices))
     return spec
 
 
